@@ -16,8 +16,138 @@ Extracted, with a shape check for each item (TranslateError when the shape is go
   SubPatternAtom, FilesizeBounds, Atom) with their serde attributes (order = wire order); any
   other attribute on these structs or their fields is an error.
 """
-import re
+import re, sys, os, json
 from tlib import *
+import rust_types as rt
+
+PINS_FILE = os.path.join(os.path.dirname(os.path.abspath(__file__)), "codec_pins.json")
+
+# Types whose Serialize/Deserialize impls are written by hand: the wire shape cannot be derived
+# from a definition, it is stated here and pinned by a digest of the impls' source.  When the
+# digest changes the translator fails until the shape below has been reviewed and the pin
+# renewed with `python3 translate/gen_codec.py --repin`.
+STR, BYTES = {"k": "str"}, {"k": "bytes"}
+CUSTOM_TYPES = {
+    # serialize_seq(len) + one str per interned string, in id order; visitor re-interns in order
+    "StringPool": ({"k": "seq", "t": STR}, "lib/src/string_pool.rs",
+                   [r"Serialize\s+for\s+StringPool\b", r"Deserialize<'de>\s+for\s+StringPool\b", r"Visitor<'de>\s+for\s+StringPoolVisitor\b"]),
+    # the same with byte strings (`&[u8]` elements are sequences of u8 = the bytes form)
+    "BStringPool": ({"k": "seq", "t": BYTES}, "lib/src/string_pool.rs",
+                    [r"Serialize\s+for\s+BStringPool\b", r"Deserialize<'de>\s+for\s+BStringPool\b", r"Visitor<'de>\s+for\s+BStringPoolVisitor\b"]),
+    # daachorse's own serialization as one byte vector; Teddy is rebuilt, not stored
+    "AhoCorasick": (BYTES, "lib/src/compiler/rules.rs", [r"Serialize\s+for\s+AhoCorasick\b", r"Deserialize<'de>\s+for\s+AhoCorasick\b"]),
+}
+# serialize_with / deserialize_with functions: Option<bytes> (None unless native-code-serialization)
+CUSTOM_FNS = {("serialize_wasm_mod", "deserialize_wasm_mod"): ({"k": "opt", "t": BYTES}, "lib/src/compiler/rules.rs")}
+# types of other crates with their own serde impls (validated on real blobs, not derivable here)
+U64 = {"k": "uint", "w": 64}
+EXTERNAL = {
+    # bitvec 1.x serdes/slice.rs: struct BitSeq { order: type name, head: BitIdx { width: u8, index: u8 }, bits: u64, data: [T] }
+    "BitVec": {"k": "tuple", "ts": [STR, {"k": "tuple", "ts": [{"k": "u8"}, {"k": "u8"}]}, U64, {"k": "seq", "t": U64}]},
+}
+
+
+def impl_sources(code, header_res, what):
+    out = []
+    for hr in header_res:
+        ms = list(re.finditer(r"\bimpl\b[^{;]*?" + hr + r"[^{;]*\{", code))
+        if not ms: raise TranslateError(f"{what}: impl matching /{hr}/ not found")
+        for m in ms:
+            j = match_brace(code, m.end() - 1)
+            out.append(code[m.start():j + 1])
+    return "\n".join(out)
+
+
+def fn_sources(code, names, what):
+    out = []
+    for n in names:
+        ms = list(re.finditer(r"((?:#\[[^\]]*\]\s*)*)(?:pub(?:\([^)]*\))?\s+)?fn\s+" + n + r"\b", code))
+        if not ms: raise TranslateError(f"{what}: fn {n} not found")
+        for m in ms:
+            i = code.index("{", code.index(")", m.end()))
+            # the body starts at the first '{' after the signature's where clause
+            depth, k = 0, m.end()
+            while k < len(code):
+                if code[k] in "(<[": depth += 1
+                elif code[k] in ")>]" and not (code[k] == ">" and code[k - 1] == "-"): depth -= 1
+                elif code[k] == "{" and depth <= 0: break
+                k += 1
+            j = match_brace(code, k)
+            out.append(code[m.start():j + 1])
+    return "\n".join(out)
+
+
+def derive_types(repin):
+    """-> (Shapes, digests) for Rules and the globals Struct"""
+    defs, customs = rt.build_index()
+    sh = rt.Shapes(defs, customs, {k: v[0] for k, v in CUSTOM_TYPES.items()}, {k: v[0] for k, v in CUSTOM_FNS.items()}, EXTERNAL)
+    root = sh.shape(("path", "Rules", []), "lib/src/compiler/rules.rs")
+    glob = sh.shape(("path", "Struct", []), "lib/src/types/structure.rs")
+    digests = {}
+    for name in sorted(sh.used_custom):
+        _, f, hdrs = CUSTOM_TYPES[name]
+        digests[name] = rt.norm_digest(impl_sources(strip_comments(src(f)), hdrs, name))
+    for key in sorted(sh.used_custom_fns):
+        _, f = CUSTOM_FNS[key]
+        digests["+".join(key)] = rt.norm_digest(fn_sources(strip_comments(src(f)), key, "+".join(key)))
+    # every type with a hand-written impl that is reachable must be registered (checked in Shapes.shape);
+    # registered ones that are no longer used are reported too
+    for name in CUSTOM_TYPES:
+        if name not in sh.used_custom: raise TranslateError(f"custom shape {name} is registered but no longer reachable from Rules")
+    if repin:
+        with open(PINS_FILE, "w") as f: json.dump(digests, f, indent=1, sort_keys=True)
+        print("pins written:", digests)
+    try:
+        pins = json.load(open(PINS_FILE))
+    except OSError:
+        raise TranslateError("translate/codec_pins.json missing: run `python3 translate/gen_codec.py --repin` after reviewing CUSTOM_TYPES")
+    for k, v in digests.items():
+        if pins.get(k) != v:
+            raise TranslateError(f"the hand-written serde code of {k} changed (digest {v}, pinned {pins.get(k)}): review its wire shape in "
+                                 f"translate/gen_codec.py (CUSTOM_TYPES / CUSTOM_FNS) and re-pin with `python3 translate/gen_codec.py --repin`")
+    return sh, root, glob, digests
+
+
+def write_types(sh, root, glob, digests):
+    ids = sorted(sh.named)
+    def ref(n): return f"(R N_{n})"
+    arms = "\n".join(f"    | N_{n} => {rt.coq_shape(sh.named[n], ref)}" for n in ids)
+    where = "\n".join(f"     {n} : {sh.info.get(n, '?')}" for n in ids)
+    pins = "\n".join(f"     {k} = {v}" for k, v in sorted(digests.items()))
+    text = f"""(* GENERATED by translate/gen_codec.py (rust_types.py) from the struct/enum definitions reachable
+   from `struct Rules` and from the globals `Struct` -- do not edit; regenerated on every check.
+
+   Named types (definition file):
+{where}
+
+   Hand-written serde impls, shapes stated in gen_codec.py and pinned by source digest:
+{pins} *)
+From Coq Require Import List NArith.
+From YV Require Import Codec.Reader Codec.Varint Codec.Universe.
+Import ListNotations.
+
+Inductive tyname := {" | ".join("N_" + n for n in ids)}.
+
+(* every reference to a named type is unfolded on demand (TDelay) and costs one unit of fuel;
+   recursive types (Struct -> StructField -> TypeValue -> Struct ...) are cut at the fuel bound,
+   where nothing decodes *)
+Fixpoint named (fuel : nat) (n : tyname) : ty :=
+  match fuel with
+  | O => TEnum []
+  | S f =>
+    let R := fun m : tyname => TDelay (fun _ => named f m) in
+    match n with
+{arms}
+    end
+  end.
+
+Definition gen_fuel : nat := 200.
+Definition gen_rules_ty : ty := named gen_fuel N_Rules.
+Definition gen_globals_ty : ty := named gen_fuel N_Struct.
+"""
+    write_if_changed("RulesTyGen.v", text)
+    js = {"root": "Rules", "globals": "Struct", "types": {n: sh.named[n] for n in ids}}
+    write_if_changed("rules_ty.json", json.dumps(js, indent=1, sort_keys=True) + "\n")
 
 INT_WIDTH = {"u8": 1, "u16": 2, "u32": 4, "u64": 8, "i32": 4, "i64": 8}
 
@@ -151,7 +281,9 @@ def struct_fields(s, name):
 CMP = {"<": "CLt", "<=": "CLe", ">": "CGt", ">=": "CGe", "==": "CEq", "!=": "CNe"}
 
 
-def main():
+def main(repin=False):
+    sh, root, glob, digests = derive_types(repin)
+    write_types(sh, root, glob, digests)
     rules = src("lib/src/compiler/rules.rs")
     comp = src("lib/src/compiler/mod.rs")
     code = strip_comments(rules)
@@ -314,4 +446,4 @@ Definition rules_custom : list (string * string * string) := [{custom}].
 
 
 if __name__ == "__main__":
-    main()
+    main(repin="--repin" in sys.argv)
